@@ -192,6 +192,19 @@ def _raise_owner(E: Engine, fn_short: str, callers_by_short: dict, depth: int = 
     return _raise_owner(E, next(iter(cs)), callers_by_short, depth + 1)
 
 
+def _raise_owners(E: Engine, fn_short: str, callers_by_short: dict, depth: int = 0) -> set:
+    """Every function a raise inside a private helper may be attributed to: the helper itself, or (through private
+    helpers, however many call sites they have) each of its callers -- so that extracting shared validation code into
+    a private helper used by several functions does not look like a new way to fail."""
+    out = {fn_short}
+    last = fn_short.split(".")[-1]
+    if depth > 3 or not last.startswith("_") or last.startswith("__"):
+        return out
+    for c in callers_by_short.get(fn_short, ()):
+        out |= _raise_owners(E, c, callers_by_short, depth + 1)
+    return out
+
+
 def order_pairs(E: Engine, callables: list[Callable_]) -> "OrderedDict[tuple[str, str, str], dict]":
     callers = _callers_index(E, callables)
     pairs: "OrderedDict[tuple[str, str, str], dict]" = OrderedDict()
@@ -288,6 +301,10 @@ def run(E: Engine, rep: Report, tier: str) -> dict:
         recorded = pair_raises.get(key)
         now = {f"{_raise_owner(E, fn, callers_by_short)}:{exc}" for fn, exc in d["raises"]}
         fresh = sorted(now - set(recorded)) if recorded is not None else []
+        if fresh:
+            # a raise that moved into a shared private helper is the old raise, attributed to any of the helper's callers
+            moved = {f"{_raise_owner(E, fn, callers_by_short)}:{exc}" for fn, exc in d["raises"] if any(f"{o}:{exc}" in set(recorded) for o in _raise_owners(E, fn, callers_by_short))}
+            fresh = [x for x in fresh if x not in moved]
         if fresh and (reason is not None or rep.is_known("ORDER", key)):
             rep.violation("ORDER", key + "|new-raise:" + ",".join(fresh)[:120], f"in {f}: after [{a}] (writes {sorted(d['writes'])}) the later event [{b}] can now also let {fresh} escape -- this raise was not possible when the pair was triaged ("
                           + ("listed as infeasible: " + reason[:80] if reason is not None else "listed as a known finding") + "), so a validation that used to precede the mutation has moved behind it", d["where"], raises=sorted(d["raises"]), writes=sorted(d["writes"]))
